@@ -10,7 +10,7 @@
    lap), uninitialised bytes, bytes of a foreign tensor and overwritten weights/LUT slots all differ.
    Events (ndjson):
      {"t","e":"Hdr","ncells":n,"init":[{"cells":[..],"sid":s,"delta":d}..]}
-     {"t","e":"Kernel","i":k,"rd":[{"w":what,"cells":[..],"sid":s,"delta":d}..],"wr":[{"cells","sid","delta"}..]}
+     {"t","e":"Kernel","i":k,"rd":[{"w":what,"cells":[..],"sid":s,"delta":d,"sidonly":bool}..],"wr":[{"cells","sid","delta"}..]}
      {"t","e":"Dma","i":k,"mode":"copy"|"retag","src":[cells],"dst":[cells],"shift":src-dst,
                     "insid","indelta","outsid","outdelta"}
      {"t","e":"Stop"}                                                                                     *)
@@ -22,7 +22,10 @@ VARIABLES l, mem, viol
 Ev == Trace[l]
 S(seq) == {seq[i] : i \in 1..Len(seq)}
 
-SegOK(seg) == \A i \in 1..Len(seg.cells) : mem[seg.cells[i]] = <<seg.sid, seg.delta>>
+(* sidonly: the access reads the tensor through edge-replicating tiles (tile padding of half-pixel resize): the
+   bytes must belong to the intended tensor, which element of it is decided by the tile registers *)
+SegOK(seg) == \A i \in 1..Len(seg.cells) :
+                 IF seg.sidonly THEN mem[seg.cells[i]][1] = seg.sid ELSE mem[seg.cells[i]] = <<seg.sid, seg.delta>>
 SegDefined(seg) == \A i \in 1..Len(seg.cells) : mem[seg.cells[i]] # Uninit
 Tagging(segs) ==
    LET cs == UNION {S(segs[i].cells) : i \in 1..Len(segs)} IN
